@@ -31,7 +31,7 @@ enum Want {
 
 const BINOPS: [&str; 10] = ["*", "/", "juxt", "|", "+", "-", "mod", "hypot", "atan2", "list"];
 const COEFS: [(&str, i8); 4] = [("", 1), ("-2 ", -1), ("1|3 ", 1), ("0 ", 0)];
-const CPAIRS: [(usize, usize); 4] = [(0, 0), (1, 2), (2, 1), (3, 0)];
+const CPAIRS: [(usize, usize); 6] = [(0, 0), (1, 2), (2, 1), (3, 0), (0, 3), (3, 3)];
 const UNARY: [&str; 27] = [
     "^-3", "^-2", "^-1", "^0", "^1", "^2", "^3", "^(1|2)", "^(1|3)", "^(2|3)", "sqrt", "neg", "sin", "cos",
     "tan", "asin", "acos", "atan", "exp", "ln", "log2", "log10", "log(x,2)", "log(2,x)", "^(0.5)", "^(3|1)", "sinh",
@@ -385,7 +385,7 @@ impl Space for C02 {
         Meta {
             id: "C02",
             level: "exploration",
-            rule: "10 binary operators/functions (* / juxtaposition | + - mod hypot atan2 unit-list) x 4 coefficient pairs x all ordered pairs of one representative unit per distinct dimensionality of the registry (+ two quoted ad-hoc base units + a dimensionless operand); 27 unary/power/root/function applications x {1, -2} coefficient x every unit, base unit and long/prefixed/plural base-unit spelling; both depth-2 shapes x 5x5 operators over an 11-unit core; 6 trigonometric functions x 9 power/reciprocal/product forms (x^-3..x^3, x*x, 1/x, x x x) of every representative unit (an angle squared is not an angle). Oracle: own exponent-vector algebra on the registry dump. Non-trivial = judged (expected dims or expected refusal defined); distinct by query text".into(),
+            rule: "10 binary operators/functions (* / juxtaposition | + - mod hypot atan2 unit-list) x 6 coefficient pairs (a zero coefficient on either or both sides: adding nothing is still an addition) x all ordered pairs of one representative unit per distinct dimensionality of the registry (+ two quoted ad-hoc base units + a dimensionless operand); 27 unary/power/root/function applications x {1, -2} coefficient x every unit, base unit and long/prefixed/plural base-unit spelling; both depth-2 shapes x 5x5 operators over an 11-unit core; 6 trigonometric functions x 9 power/reciprocal/product forms (x^-3..x^3, x*x, 1/x, x x x) of every representative unit (an angle squared is not an angle). Oracle: own exponent-vector algebra on the registry dump. Non-trivial = judged (expected dims or expected refusal defined); distinct by query text".into(),
             assumptions: vec![
                 "the registry dump (C08 validates it) gives each unit's dimensionality".into(),
                 "exp/ln/log/hyperbolic functions of dimensioned arguments and p/q powers with p != 1 are recorded, not judged (the statement gives no rule)".into(),
